@@ -301,3 +301,9 @@ func ghostHeap(name string) (string, string) {
 	}
 	return "Q:ghost_" + sanitize(name), "(Array Int (Array (Seq Int) Bool))"
 }
+
+// ghostMapHeap: a named ghost map (byte-string keys to byte-string values) per object, e.g. the contents of a
+// contract's key-value storage as seen through SetData/GetData. Written by `ghostput`, read by gmap().
+func ghostMapHeap(name string) (string, string) {
+	return "R:ghostmap_" + sanitize(name), "(Array Int (Array (Seq Int) (Seq Int)))"
+}
